@@ -12,7 +12,7 @@ import (
 
 func init() {
 	register("C16", false,
-		"Structural necessary conditions decided from source: (C16-secret) taint analysis over package fbb: the password returned by the SecureLoginHandleFunc callback can reach no writer, logger or error (fmt.Fprint*, Write*, log.*, fmt.Errorf, errors.New); the only thing it may flow into is the MD5 hash, whose result is clean - so the password never appears on the wire whatever the inputs; (C16-guard) every call through the callback field is protected by a non-nil test of the field (clause reasoning: the early 'challenge != \"\" && callback == nil -> error' exit plus the 'challenge != \"\"' edge dominating each call), and that error exit precedes every write of the handshake; (C16-consts) the salt equals the 64 reference bytes embedded in the checker and the hashed payload depends on challenge, password and salt - in that order when the payload is the recognised concatenation; (C16-reply) the ;PR response and each 'address|response' pair are computed by secureLoginResponse from the challenge and the callback's password for that address, the pair is written only on the password-known edge and the bare address otherwise; where the recognised forms are present the response keeps the low 6 bits of digest byte 3, prints %%08d and keeps the last eight characters. NOT decided: the numeric response for all challenge/password pairs (arithmetic on run-time values).",
+		"Structural necessary conditions decided from source: (C16-secret) taint analysis over package fbb: the password returned by the SecureLoginHandleFunc callback can reach no writer, logger or error (fmt.Fprint*, Write*, log.*, fmt.Errorf, errors.New); the only thing it may flow into is the MD5 hash, whose result is clean - so the password never appears on the wire whatever the inputs; (C16-guard) every call through the callback field is protected by a non-nil test of the field (clause reasoning: the early 'challenge != \"\" && callback == nil -> error' exit plus the 'challenge != \"\"' edge dominating each call), and that error exit precedes every write of the handshake; (C16-consts) the salt equals the 64 reference bytes embedded in the checker and the hashed payload depends on challenge, password and salt - in that order when the payload is the recognised concatenation; (C16-reply) the ;PR response and each 'address|response' pair are computed by secureLoginResponse from the challenge and the callback's password for that address, the pair is written only on the password-known edge and the bare address otherwise; where the recognised forms are present the response keeps the low 6 bits of digest byte 3 (or masks the little-endian Uint32 of digest bytes 0..3 with 0x3fffffff), prints %%08d and keeps the last eight characters (slice of the last eight, value modulo 100000000, or len <= 8 proved); the text of a write is followed through concatenation, Sprintf and local variables, one alternative per selecting edge; a digest is md5.Sum(x) or md5.New() fed in a fixed order and summed once, and a write into a crypto hash object is a declassifier like md5.Sum. NOT decided: the numeric response for all challenge/password pairs (arithmetic on run-time values).",
 		checkC16)
 }
 
@@ -76,6 +76,7 @@ func checkC16(c *Ctx, r *Report) {
 		c:         c,
 		inScope:   func(fn *ssa.Function) bool { return pkgRel(fn) == pkg },
 		cleanCall: func(name string) bool { return name == "crypto/md5.Sum" },
+		cleanSite: h4WritesIntoHash, // a write into a crypto hash object declassifies like md5.Sum (ip_h4.go)
 	})
 	var sources []ssa.CallInstruction
 	for _, fn := range c.SrcFuncs(pkg) {
@@ -116,6 +117,9 @@ func checkC16(c *Ctx, r *Report) {
 			if !isSink {
 				return
 			}
+			if h4WritesIntoHash(ci) {
+				return // the destination is a crypto hash: only the digest comes out of it
+			}
 			nSinks++
 			for _, a := range callArgs(ci.Common()) {
 				if tn.tainted[a] {
@@ -141,9 +145,11 @@ func checkC16(c *Ctx, r *Report) {
 		r.Fail("C16-secret", "anchor fbb.secureLoginResponse not found")
 	} else {
 		hashed := false
-		for _, ci := range callsTo(fn, false, "crypto/md5.Sum") {
-			if tn.tainted[ci.Common().Args[0]] {
-				hashed = true
+		for _, d := range h4Digests(fn) {
+			for _, part := range d.parts {
+				if part.v != nil && tn.tainted[part.v] {
+					hashed = true
+				}
 			}
 		}
 		r.Check("C16-secret", fnName(fn), "password flows into md5.Sum", c.pos(fn.Pos()), hashed,
@@ -212,12 +218,15 @@ func checkC16(c *Ctx, r *Report) {
 	}
 	if fn := c.Func(pkg, "secureLoginResponse"); fn != nil {
 		where := fnName(fn)
-		calls := callsTo(fn, false, "crypto/md5.Sum")
+		// one MD5 computation: md5.Sum(x), or md5.New() fed piece by piece and summed (h4Digests)
+		digests := h4Digests(fn)
 		o := r.Add("C16-consts", where, "hashed payload", c.pos(fn.Pos()))
-		if len(calls) != 1 || len(fn.Params) != 2 {
+		if len(digests) != 1 || len(fn.Params) != 2 {
 			o.Bad("expected one md5.Sum over (challenge, password) in secureLoginResponse (unresolved)")
+		} else if digests[0].why != "" {
+			o.Bad("the MD5 computation in secureLoginResponse is not resolved: %s", digests[0].why)
 		} else {
-			arg := calls[0].Common().Args[0]
+			parts := digests[0].parts
 			isParam := func(k int) func(ssa.Value) bool {
 				return func(v ssa.Value) bool { return v == ssa.Value(fn.Params[k]) }
 			}
@@ -225,32 +234,45 @@ func checkC16(c *Ctx, r *Report) {
 				g, ok := v.(*ssa.Global)
 				return ok && g.Name() == "winlinkSecureSalt"
 			}
-			dc, dp, ds := dependsOn(arg, isParam(0)), dependsOn(arg, isParam(1)), dependsOn(arg, isSalt)
+			dep := func(pred func(ssa.Value) bool) bool {
+				for _, part := range parts {
+					if part.v != nil && dependsOn(part.v, pred) {
+						return true
+					}
+				}
+				return false
+			}
+			dc, dp, ds := dep(isParam(0)), dep(isParam(1)), dep(isSalt)
 			switch {
 			case !(dc && dp && ds):
 				o.Bad("the hashed payload depends on challenge=%v password=%v salt=%v; the algorithm hashes all three", dc, dp, ds)
 			default:
-				// order, when the payload is a plain concatenation
-				var leaves []string
-				var flatten func(v ssa.Value) bool
-				flatten = func(v ssa.Value) bool {
-					v = unwrap(v)
-					if b, ok := v.(*ssa.BinOp); ok && b.Op == token.ADD {
-						return flatten(b.X) && flatten(b.Y)
-					}
+				// order, when the payload is a plain concatenation (of what is passed to md5.Sum, or of
+				// the pieces written into the hash in execution order)
+				leafName := func(v ssa.Value) string {
 					switch {
 					case v == ssa.Value(fn.Params[0]):
-						leaves = append(leaves, "challenge")
+						return "challenge"
 					case v == ssa.Value(fn.Params[1]):
-						leaves = append(leaves, "password")
-					case func() bool { ld, ok := v.(*ssa.UnOp); return ok && ld.Op == token.MUL && isSalt(ld.X) }():
-						leaves = append(leaves, "salt")
-					default:
-						return false
+						return "password"
 					}
-					return true
+					if ld, ok := v.(*ssa.UnOp); ok && ld.Op == token.MUL && isSalt(ld.X) {
+						return "salt"
+					}
+					return ""
 				}
-				if flatten(arg) {
+				var leaves []string
+				flat := true
+				for _, part := range parts {
+					if part.v == nil {
+						leaves = append(leaves, strconvQuote(part.lit))
+						continue
+					}
+					l, ok := h4Flatten(part.v, leafName, 0)
+					leaves = append(leaves, l...)
+					flat = flat && ok
+				}
+				if flat {
 					if strings.Join(leaves, "+") == "challenge+password+salt" {
 						o.OK("md5 over the concatenation challenge + password + salt")
 					} else {
@@ -309,6 +331,7 @@ func checkC16(c *Ctx, r *Report) {
 			r.Check("C16-reply", where, "30-bit mask", c.pos(b.Pos()), idx == 3 && mask == 0x3f,
 				"digest byte 3 is masked with 0x3f (the value keeps 30 bits)", "the mask keeps other bits than the low 6 of digest byte 3: the response is not the 30-bit little-endian value")
 		})
+		nLast := 0
 		eachInstr(fn, func(_ *ssa.BasicBlock, _ int, instr ssa.Instruction) {
 			sl, ok := instr.(*ssa.Slice)
 			if !ok || sl.Low == nil || sl.High != nil {
@@ -318,11 +341,16 @@ func checkC16(c *Ctx, r *Report) {
 				k, isC := constInt(b.Y)
 				call, isLen := b.X.(*ssa.Call)
 				if isC && isLen && callName(&call.Call) == "builtin.len" {
+					nLast++
 					r.Check("C16-reply", where, "last eight characters", c.pos(sl.Pos()), k == 8,
 						"the response is the last eight characters of the formatted value", "the response keeps the last "+pathOf(b.Y)+" characters, the algorithm keeps eight")
 				}
 			}
 		})
+		// the same two clauses in their arithmetic spelling (ip_h4.go): the 30-bit value taken with
+		// binary.<order>.Uint32(digest[:4]) & mask, the last eight digits with value % 100000000;
+		// when neither spelling of "last eight" is present, len(response) <= 8 has to be proved
+		c16ArithForms(c, r, fn, nLast)
 	}
 
 	// reply lines in sendHandshake
@@ -338,36 +366,6 @@ func checkC16(c *Ctx, r *Report) {
 			}
 			return nil, false
 		}
-		// value stored at index k of a variadic argument slice
-		varArg := func(ci ssa.CallInstruction, argIdx, k int) ssa.Value {
-			args := ci.Common().Args
-			if argIdx >= len(args) {
-				return nil
-			}
-			sl, ok := args[argIdx].(*ssa.Slice)
-			if !ok {
-				return nil
-			}
-			al, ok := sl.X.(*ssa.Alloc)
-			if !ok {
-				return nil
-			}
-			for _, ref := range *al.Referrers() {
-				ia, ok := ref.(*ssa.IndexAddr)
-				if !ok {
-					continue
-				}
-				if n, _ := constInt(ia.Index); int(n) != k {
-					continue
-				}
-				for _, r2 := range *ia.Referrers() {
-					if st, ok := r2.(*ssa.Store); ok {
-						return unwrap(st.Val)
-					}
-				}
-			}
-			return nil
-		}
 		pwOf := func(call *ssa.Call) (ssa.CallInstruction, bool) {
 			// second argument of secureLoginResponse must be result 0 of a callback call
 			ex, ok := call.Call.Args[1].(*ssa.Extract)
@@ -380,50 +378,9 @@ func checkC16(c *Ctx, r *Report) {
 			}
 			return src, true
 		}
-		nPair := 0
-		for _, ci := range callsTo(fn, false, "fmt.Fprintf") {
-			s, ok := constString(ci.Common().Args[1])
-			if !ok || !strings.Contains(s, "|") {
-				continue
-			}
-			nPair++
-			o := r.Add("C16-reply", where, "auxiliary 'address|response' pair", c.pos(ci.Pos()))
-			a0, a1 := varArg(ci, 2, 0), varArg(ci, 2, 1)
-			resp, isR := isResp(a1)
-			switch {
-			case s != " %s|%s":
-				o.Bad("pair format is %q, expected \" %%s|%%s\"", s)
-			case a0 == nil || !strings.HasSuffix(pathOf(a0), ".Addr"):
-				o.Bad("the first element of the pair is not the auxiliary address")
-			case !isR:
-				o.Bad("the second element of the pair is not a secureLoginResponse")
-			default:
-				src, okPw := pwOf(resp)
-				guarded := false
-				for _, cd := range condsAt(ci.Block()) {
-					if b, ok := cd.V.(*ssa.BinOp); ok && b.Op == token.NEQ && cd.Truth {
-						if s2, isS := constString(b.Y); isS && s2 == "" && okPw && b.X == resp.Call.Args[1] {
-							guarded = true
-						}
-					}
-				}
-				switch {
-				case resp.Call.Args[0] != ssa.Value(chal):
-					o.Bad("the response is not computed from the remote's challenge")
-				case !okPw:
-					o.Bad("the response is not computed from the callback's password")
-				case pathOf(src.Common().Args[0]) != strings.TrimSuffix(pathOf(a0), ".Addr"):
-					o.Bad("the password is requested for %s but the pair names %s", pathOf(src.Common().Args[0]), pathOf(a0))
-				case !guarded:
-					o.Bad("the pair is written without the 'password known' edge dominating it")
-				default:
-					o.OK("written on the password-known edge; response = secureLoginResponse(challenge, callback(address))")
-				}
-			}
-		}
-		if nPair == 0 {
-			r.Add("C16-reply", where, "auxiliary 'address|response' pair", c.pos(fn.Pos())).Bad("no 'address|response' pair is written for auxiliary addresses")
-		}
+		// auxiliary pairs: every alternative of the text of every write that carries a response or a
+		// '|' - spelled in the format, concatenated in a local, chosen by a phi (ip_h4.go)
+		c16AuxPairs(c, r, fn, ssa.Value(chal))
 		// ;PR line: the one call of writeSecureLoginResponse in sendHandshake or in a helper below it
 		// (g5Occurrences). For a helper the conditions are lifted to its call site: it must be the
 		// only one, and the helper's parameters are bound to the actual arguments (g5Env).
@@ -665,7 +622,7 @@ func auxListRule(c *Ctx, r *Report, rule string) {
 			writes := map[*ssa.BasicBlock]bool{}
 			for b := range l.body {
 				for _, in := range b.Instrs {
-					if ci, ok := in.(ssa.CallInstruction); ok && callName(ci.Common()) == "fmt.Fprintf" {
+					if ci, ok := in.(ssa.CallInstruction); ok && h4PlainWrite[callName(ci.Common())] {
 						writes[b] = true
 					}
 				}
